@@ -30,5 +30,5 @@ MANIFEST = {
   'level_text': 'Bounded model checking of the real instance manager code: every public operation is run once from an arbitrary valid state (0..3 live instances, symbolic ids/states/maxFileId satisfying the representation invariant) and must re-establish the invariant and agree with a list+dict reference on count, i-th instance/index, id look-up (incl. an arbitrary probe id), id freshness and maximum id. Because the invariant is re-established by every operation, histories of any length over states of <= 3(+1) instances are covered.',
   'level_note': 'Trusted: CBMC, ir2c translator (validated per run against a g++ build on sample states), vstd map model (association list). Assumes Delete is called with live nodes. Outside: more than 4 live instances, display lists, VerifyInstances, name look-up (EntityKeywordCount needs descriptors).',
   'technique': 'inductive-step bounded model checking (CBMC) of the IR-translated real InstMgr code from symbolic valid states; op code and state size forked per query',
-  'design_ref': 'DESIGN.md section 3, C13',
+  'design_ref': 'DESIGN.md section 2, C13',
 }
